@@ -74,7 +74,11 @@ func setPlaceholderNames(n *ast.MsgNode) {
 		for _, node := range nodes {
 			for {
 				var newName = baseName + "_" + strconv.Itoa(nextSuffix)
-				if _, ok := nameToRepNodes[newName]; !ok {
+				// (as in the official algorithm, a candidate that is the base name
+				// of other placeholders of this message is passed over - also
+				// when those get suffixes of their own.)
+				var _, isBaseName = baseNameToRepNodes[newName]
+				if _, ok := nameToRepNodes[newName]; !ok && !isBaseName {
 					nameToRepNodes[newName] = node
 					break
 				}
